@@ -201,3 +201,130 @@ contract('parso.cache.try_to_save_module',
                   'forall(lambda g, p: implies(g in parser_cache and p in parser_cache[g] and not (g == hashed_grammar and p == file_io.path), '
                   'old(g in parser_cache and p in parser_cache[g]) and parser_cache[g][p] is old(parser_cache[g][p])))'],
          raises=[], modifies=['parser_cache', '$maps', 'node', 'lines', 'change_time', 'last_used'], props=['C16', 'C17'])
+
+
+# ---- cache maintenance (C17: clean-up never deletes an entry that is in use).  Ghost environment: file_atime(p) is the
+# last access time of the file at p, path_exists(p) / path_is_dir(p) what the file system says, joined(d, n) the path
+# d/n, clock_read(t) says t was returned by time.time() during this call.  "In use" is what the module defines: accessed
+# within the last _CACHED_FILE_MAXIMUM_SURVIVAL seconds.  The policy obligation sits on the call of os.remove in
+# clear_inactive_cache (contract key ext:posix.remove#inactive-only): whatever path is handed to it has been inactive for
+# that long at some clock reading of this call.
+from pv.contract import ext_class, fields  # noqa: E402
+from pv.values import VBool, VAny  # noqa: E402
+
+ext_class('Path', 'pathlib', ['exists', 'joinpath', 'is_dir'])
+ext_class('DirEntry', 'posix', ['stat'])
+fields(st_atime='int', st_mtime='int', st_ctime='int')
+class_fields('DirEntry', path='any')
+
+_fa = z3.Function('file_atime', I, I)
+_pe = z3.Function('path_exists', I, z3.BoolSort())
+_pd = z3.Function('path_is_dir', I, z3.BoolSort())
+_jn = z3.Function('joined', I, I, I)
+_cr = z3.Function('clock_read', I, z3.BoolSort())
+_ss = z3.Function('str_obj', z3.StringSort(), I)
+
+
+def _ref_of(v):
+    from pv.values import VStr
+    return _ss(v.t) if isinstance(v, VStr) else v.t
+
+
+@specfn('file_atime')
+def sp_fa(eng, st, p):
+    return VInt(_fa(_ref_of(p)))
+
+
+@specfn('path_exists')
+def sp_pe(eng, st, p):
+    return VBool(_pe(_ref_of(p)))
+
+
+@specfn('path_is_dir')
+def sp_pd(eng, st, p):
+    return VBool(_pd(_ref_of(p)))
+
+
+@specfn('joined')
+def sp_jn(eng, st, d, n):
+    from pv.values import VRef
+    return VRef(_jn(_ref_of(d), _ref_of(n)), 'Path')
+
+
+@specfn('clock_read')
+def sp_cr(eng, st, t):
+    return VBool(_cr(t.t))
+
+
+SURVIVAL = 60 * 60 * 24 * 30
+contract('ext:pathlib.Path.exists', params={'self': 'ref:Path'}, returns='bool', trusted=True,
+         ensures=['result == path_exists(self)'], note='environment: whether the path exists now')
+contract('ext:pathlib.Path.is_dir', params={'self': 'ref:Path'}, returns='bool', trusted=True,
+         ensures=['result == path_is_dir(self)'], note='environment: whether the path is a directory now')
+contract('ext:pathlib.Path.joinpath', params={'self': 'ref:Path', 'other': 'any'}, returns='ref:Path', trusted=True,
+         ensures=['result is not None', 'result is joined(self, other)'], note='pure: the path self/other')
+contract('ext:posix.listdir', params={'path': 'any'}, returns='list:str', trusted=True, raises=['OSError'], fresh_result=True,
+         note='environment: the names in that directory, as a new list')
+contract('ext:posix.scandir', params={'path': 'any'}, returns='list:ref:DirEntry', trusted=True, raises=['OSError'], fresh_result=True,
+         ensures=['forall(lambda i: implies(0 <= i and i < len(result), result[i] is not None))'],
+         note='environment: the directory entries; ASSUMED: iterating the scandir iterator is iterating a list of entries')
+contract('ext:posix.DirEntry.stat', params={'self': 'ref:DirEntry'}, returns='ref:stat_result', trusted=True, raises=['OSError'],
+         ensures=['result is not None', 'result.st_atime == file_atime(self.path)', 'result.st_mtime == file_mtime(self.path)'],
+         note='environment: the stat record of the entry (times as mathematical numbers, not floats)')
+contract('ext:time.time', params={}, returns='int', trusted=True, ensures=['clock_read(result)'],
+         note='environment: a clock reading of this call (a mathematical number, not a float)')
+contract('ext:posix.remove', params={'path': 'any'}, trusted=True, raises=['OSError'],
+         note='environment: deletes the file at that path')
+contract('ext:posix.remove#inactive-only', params={'path': 'any'}, trusted=True, raises=['OSError'],
+         requires=['not forall(lambda t: not (clock_read(t) and (file_atime(path) + %d <= t or '
+                   'file_atime(path) + inactivity_threshold <= t)))' % SURVIVAL],
+         free={'inactivity_threshold': 'int'},
+         note='os.remove with the policy obligation of the clean-up: at some clock reading of this call the file has not been '
+              'accessed for _CACHED_FILE_MAXIMUM_SURVIVAL seconds (what the code tests today) or for the caller\'s '
+              'inactivity_threshold (what the parameter, unused today, asks for)')
+
+MAINT = {'_default_cache_path': 'ref:Path'}
+contract('parso.cache.clear_inactive_cache', params={'cache_path': 'ref:Path', 'inactivity_threshold': 'int'}, returns='bool',
+         globals_=MAINT, requires=['_default_cache_path is not None'],
+         ensures=['implies(cache_path is not None, result == path_exists(cache_path))',
+                  'implies(cache_path is None, result == path_exists(_default_cache_path))'],
+         raises=['OSError'], modifies=[], lists=[],
+         call_keys={'ext:posix.remove': 'ext:posix.remove#inactive-only'},
+         loops={0: dict(invariant=['True']), 1: dict(invariant=['True'])}, props=['C17'])
+
+# the lock file: touched (utime, or created by an append-mode open that cannot truncate), never anything else
+contract('ext:posix.utime', params={'path': 'any', 'times': 'any'}, trusted=True, raises=['OSError'],
+         note='environment: sets the times of that file; FileNotFoundError (an OSError) when it is missing')
+contract('ext:io.open#append', params={'file': 'any', 'mode': 'str'}, returns='ref:FileHandle', trusted=True, raises=['OSError'],
+         requires=['mode == "a"'], ensures=['result is not None'],
+         note='open() with the policy obligation of _touch: append mode, which creates a missing file and never truncates an '
+              'existing one')
+ext_class('FileHandle', '_io', ['close'])
+contract('ext:_io.FileHandle.close', params={'self': 'ref:FileHandle'}, trusted=True, raises=['OSError'],
+         note='environment: closing may flush and fail with OSError')
+contract('parso.cache._touch', params={'path': 'any'}, returns='bool', raises=['OSError'], modifies=[], lists=[],
+         call_keys={'ext:io.open': 'ext:io.open#append'}, props=['C17'])
+
+contract('parso.cache._get_cache_clear_lock_path', params={'cache_path': 'ref:Path'}, returns='ref:Path', globals_=MAINT,
+         requires=['_default_cache_path is not None'],
+         ensures=['result is not None',
+                  'implies(cache_path is not None, result is joined(cache_path, "PARSO-CACHE-LOCK"))',
+                  'implies(cache_path is None, result is joined(_default_cache_path, "PARSO-CACHE-LOCK"))'],
+         modifies=[], lists=[], props=['C17'])
+
+contract('parso.cache._touch#lock', params={'path': 'any'}, returns='bool', raises=['OSError'], modifies=[], lists=[],
+         requires=['implies(cache_path is not None, path is joined(cache_path, "PARSO-CACHE-LOCK"))',
+                   'implies(cache_path is None, path is joined(_default_cache_path, "PARSO-CACHE-LOCK"))'],
+         free={'cache_path': 'ref:Path', '_default_cache_path': 'ref:Path'}, refines='parso.cache._touch', trusted=True,
+         note='_touch (verified under its own key) with the policy obligation of the clean-up driver: the only file it is '
+              'pointed at is the lock file of this cache directory')
+contract('parso.cache.clear_inactive_cache#auto', params={'cache_path': 'ref:Path', 'inactivity_threshold': 'int'}, returns='bool',
+         requires=['inactivity_threshold >= %d' % SURVIVAL],
+         raises=['OSError'], modifies=[], lists=[], trusted=True, refines='parso.cache.clear_inactive_cache',
+         note='clear_inactive_cache (verified under its own key) with the policy obligation of the automatic clean-up: it runs '
+              'with a threshold not below the default')
+contract('parso.cache._remove_cache_and_update_lock#maint', params={'cache_path': 'ref:Path'}, globals_=MAINT,
+         requires=['_default_cache_path is not None'], raises=['OSError'], modifies=[], lists=[],
+         call_keys={'parso.cache._touch': 'parso.cache._touch#lock',
+                    'parso.cache.clear_inactive_cache': 'parso.cache.clear_inactive_cache#auto'},
+         locals_={}, props=['C17'])
